@@ -464,7 +464,9 @@ func mapKey(attr Value, typ reflect.Type) (reflect.Value, bool) {
 	}
 	switch {
 	case typ.Kind() == reflect.String:
-		if k := av.Kind(); isNumberKind(k) || k == reflect.Bool {
+		// A string finds the entries of a map keyed by a defined string type
+		// (type Code string): templates only have plain strings to offer.
+		if k := av.Kind(); isNumberKind(k) || k == reflect.Bool || k == reflect.String {
 			return reflect.ValueOf(CoerceString(attr)).Convert(typ), true
 		}
 	case isNumberKind(typ.Kind()):
